@@ -44,6 +44,15 @@ pub fn layouts() -> Vec<Layout> {
         mk("directory", "t:\n  build: ':'\n  input: [{paths: [src]}]\n  output: [{paths: [out]}]\n", vec!["out/o.txt"]),
         mk("directory+extensions", "t:\n  build: ':'\n  input: [{paths: [src], extensions: [txt]}]\n  output: [{paths: [out], extensions: [txt]}]\n", vec!["out/o.txt", "out/o.bin"]),
         mk("overlapping-paths", "t:\n  build: ':'\n  input: [{paths: [src, src/sub]}]\n  output: [{paths: [out/o.txt]}]\n", vec!["out/o.txt"]),
+        // the same file denoted by two separate resource entries of one target
+        mk("overlapping-resources", "t:\n  build: ':'\n  input: [{paths: [src]}, {paths: [src/sub]}, {paths: [src/a.txt]}]\n  output: [{paths: [out]}, {paths: [out/o.txt]}]\n", vec!["out/o.txt"]),
+        Layout {
+            name: "inherited-output-inside-own-directory",
+            projects: vec![("", None, "p:\n  build: ':'\n  output: [{paths: [src/gen], extensions: [txt]}]\nt:\n  build: ':'\n  input: [{paths: [src]}, p.output]\n  output: [{paths: [out/o.txt]}]\n")],
+            target: "t",
+            files: { let mut f = common.clone(); f.extend(vec![("src/gen/g.txt", "generated"), ("src/gen/h.bin", "generated-binary")]); f },
+            writes: vec!["out/o.txt"],
+        },
         mk("two-resources", "t:\n  build: ':'\n  input: [{paths: [src/a.txt]}, {paths: [src/sub], extensions: [txt]}]\n  output: [{paths: [out/o.txt]}]\n", vec!["out/o.txt"]),
         mk("cmd-only", "t:\n  build: ':'\n  input: [{cmd_stdout: 'cat v.txt'}]\n  output: [{paths: [out/o.txt]}]\n", vec!["out/o.txt"]),
         mk("file+cmd", "t:\n  build: ':'\n  input: [{paths: [src/a.txt]}, {cmd_stdout: 'cat v.txt'}]\n  output: [{paths: [out/o.txt]}, {cmd_stdout: 'cat out/o.txt'}]\n", vec!["out/o.txt"]),
@@ -672,12 +681,13 @@ fn merge(rep: &mut Report, outs: Vec<HistOut>) {
 pub fn check_c02(rep: &mut Report) {
     let ls: Vec<Layout> = layouts().into_iter().filter(|l| !["no-input", "same-command-text-same-output"].contains(&l.name)).collect();
     let thorough = rep.thorough();
-    // run; h; run with |h| <= 2 (quick: on the layouts without command resources, |h| <= 1 on the others);
+    // run; h; run with |h| <= 2 (quick: on four file layouts, |h| <= 1 on the others);
     // chained run; h1; run; h2; run with |h1|,|h2| <= 1 everywhere; thorough: |h| <= 3 on three layouts
     let cheap = |l: &Layout| !l.projects.iter().any(|p| p.2.contains("cmd_stdout"));
     let mut jobs: Vec<(Layout, usize, usize)> = vec![];
     for l in &ls {
-        jobs.push((l.clone(), if thorough || cheap(l) { 2 } else { 1 }, usize::MAX));
+        let deep = ["directory", "directory+extensions", "overlapping-resources", "file-path"].contains(&l.name);
+        jobs.push((l.clone(), if thorough || (cheap(l) && deep) { 2 } else { 1 }, usize::MAX));
         jobs.push((l.clone(), 1, 1));
         if thorough && ["file-path", "directory+extensions"].contains(&l.name) {
             jobs.push((l.clone(), 3, usize::MAX));
@@ -686,7 +696,7 @@ pub fn check_c02(rep: &mut Report) {
     let outs = crate::explore::par_map(&jobs, 16, |(l, a, b)| run_histories(l, &ops_for(l), *a, *b, Oracle::SkipOnlyWhenAllowed, "C02"));
     merge(rep, outs);
     rep.set("exhaustive", json!(true));
-    rep.set("bounds", json!({"layouts": ls.iter().map(|l| l.name).collect::<Vec<_>>(), "operations": ops_for(&ls[1]).iter().map(|o| format!("{:?}", o)).collect::<Vec<_>>(), "histories": "run; h; run with |h|<=2 (3 thorough on three layouts) and run; h1; run; h2; run with |h1|,|h2|<=1"}));
+    rep.set("bounds", json!({"layouts": ls.iter().map(|l| l.name).collect::<Vec<_>>(), "operations": ops_for(&ls[1]).iter().map(|o| format!("{:?}", o)).collect::<Vec<_>>(), "histories": "run; h; run with |h|<=2 on four file layouts (all layouts thorough; 3 on two layouts thorough), |h|<=1 on the others; run; h1; run; h2; run with |h1|,|h2|<=1 everywhere"}));
     rep.set("rule", json!("states = distinct histories by their full decision log; transitions = invocations of the real runner"));
     rep.assumptions.push("mtimes are set explicitly by the harness, strictly increasing".into());
 }
